@@ -23,6 +23,9 @@ CAP = 400
 store = {n: [] for n in NAMES}
 seen = {n: 0 for n in NAMES}
 rng_res = np.random.default_rng(12345)
+PAIR = ("moments", "unphased_moments", "mutation_moments", "mutation_unphased_moments")
+special = {n: [] for n in PAIR}
+seen_special = {n: 0 for n in PAIR}
 
 
 def wrap(name):
@@ -32,6 +35,15 @@ def wrap(name):
         out = fn(*args)
         seen[name] += 1
         item = ([float(a) for a in args], [float(o) for o in out])
+        if name in PAIR and len(special[name]) < 60:
+            a_i, b_i, a_j, b_j, y, mu = item[0]
+            t = mu + b_i
+            if t > 0:
+                z = (mu - b_j) / t if name in ("moments", "mutation_moments") else 1 - (mu + b_j) / t
+                # hypergeometric argument close to its boundary 1, or hugely negative
+                if abs(1 - z) < 1.2e-5 or z < -1e5:
+                    special[name].append(item)
+                    seen_special[name] += 1
         if len(store[name]) < CAP:
             store[name].append(item)
         else:
@@ -60,13 +72,63 @@ def unphased_with_fixed_parent(rng):
     return t.tree_sequence(), r
 
 
+def uneven_spans(rng, ploidy=1):
+    """several trees whose spans differ by 5-6 orders of magnitude (first breakpoint moved to 1)"""
+    ts, r = zoo.sim(rng, n=int(rng.integers(3, 8)), L=1e6, rec=float(rng.choice([1.0, 3.0])) / (4 * 100.0 * 1e6),
+                    Ne=100.0, ploidy=ploidy, mut_per_edge=5.0)
+    bp = ts.breakpoints(as_array=True)
+    if len(bp) < 3:
+        return ts, r
+    if rng.random() < 0.5:
+        # mirror the genome so that the tiny tree can also be the last one
+        L_ = ts.sequence_length
+        t0 = ts.dump_tables()
+        l0, r0 = t0.edges.left.copy(), t0.edges.right.copy()
+        t0.edges.left, t0.edges.right = L_ - r0, L_ - l0
+        t0.sites.position = L_ - t0.sites.position - 0.5
+        t0.mutations.time = np.full(t0.mutations.num_rows, np.nan)
+        import tskit as _tk
+        t0.mutations.time = np.full(t0.mutations.num_rows, _tk.UNKNOWN_TIME)
+        t0.sort(); t0.build_index(); t0.compute_mutation_parents()
+        ts = t0.tree_sequence()
+        bp = ts.breakpoints(as_array=True)
+    b1 = bp[1]
+    t = ts.dump_tables()
+    for col in ("left", "right"):
+        v = getattr(t.edges, col).copy()
+        v[v == b1] = 1.0
+        setattr(t.edges, col, v)
+    pos = t.sites.position.copy()
+    low = pos < b1
+    pos[low] = pos[low] / b1 * 0.999
+    pos[~low] = np.maximum(pos[~low], 1.0)
+    # keep positions strictly increasing
+    for k in range(1, len(pos)):
+        if pos[k] <= pos[k - 1]:
+            pos[k] = np.nextafter(pos[k - 1], np.inf)
+    t.sites.position = pos
+    t.mutations.time = np.full(t.mutations.num_rows, -1.0)
+    t.mutations.time = np.full(t.mutations.num_rows, np.nan)
+    import tskit
+    t.mutations.time = np.full(t.mutations.num_rows, tskit.UNKNOWN_TIME)
+    t.sort(); t.build_index(); t.compute_mutation_parents()
+    r["gen"] = "uneven_spans"
+    return t.tree_sequence(), r
+
+
 def main(path, seed, nruns):
     rng = np.random.default_rng(seed)
     runs = 0
     for k in range(nruns):
-        kind = k % 6
+        kind = [0, 1, 2, 3, 4, 5, 6, 7, 7, 6, 7, 3][k % 12]
         try:
-            if kind == 0:
+            if kind == 6:
+                ts, r = uneven_spans(rng)
+                kw = {}
+            elif kind == 7:
+                ts, r = uneven_spans(rng, ploidy=2)
+                kw = {"singletons_phased": False}
+            elif kind == 0:
                 ts, r = zoo.sim(rng)
                 kw = {}
             elif kind == 1:
@@ -92,8 +154,11 @@ def main(path, seed, nruns):
             runs += 1
         except Exception:
             pass
+    for n in PAIR:
+        store[n] = special[n] + store[n]
     with open(path, "w") as f:
-        json.dump({"store": store, "seen": seen, "runs": runs}, f)
+        json.dump({"store": store, "seen": seen, "runs": runs, "near_boundary_events": seen_special,
+                   "n_special": {n: len(special[n]) for n in PAIR}}, f)
     print("C18HARVEST", json.dumps(seen))
 
 
